@@ -278,6 +278,33 @@ pub fn record(seed: u64, thorough: bool, shards: usize, prefix: &str) -> Value {
     };
     let mut r = crate::rng::Rng::new(seed);
     emit(reset_event());
+    // FIRST USE on a fresh thread: a boundary colour rendered as the very first thing a thread does (per-thread caches start
+    // empty, sentinels must not collide with real values) - before this thread has rendered anything else either
+    for slot in 0..3 {
+        for c in [Color::Rgb(RgbColor(0, 0, 0)), Color::Rgb(RgbColor(255, 255, 255)), Color::Ansi256(Ansi256Color(0)), Color::Ansi256(Ansi256Color(255)),
+                  Color::Ansi(ANSI[0]), Color::Ansi(ANSI[15]), Color::Rgb(RgbColor(0, 0, 1))] {
+            let ev = std::thread::spawn(move || {
+                let st = match slot {
+                    0 => Style::new().fg_color(Some(c)),
+                    1 => Style::new().bg_color(Some(c)),
+                    _ => Style::new().underline_color(Some(c)),
+                };
+                style_event(st, false)
+            })
+            .join()
+            .unwrap();
+            emit(ev);
+            nontrivial += 1;
+        }
+    }
+    // every pair of named colours in the foreground and background slots (anything shared between the two slots shows
+    // only in pairs of different brightness)
+    for f in ANSI {
+        for b in ANSI {
+            emit(style_event(Style::new().fg_color(Some(f.into())).bg_color(Some(b.into())), false));
+            nontrivial += 1;
+        }
+    }
     // all 4096 effect sets: alone, and combined with a rotating colour assignment
     for bits in 0..4096u16 {
         let e = effects_from_bits(bits);
